@@ -19,7 +19,12 @@ func PartialServiceAreaListToNas(plmnID models.PlmnId, serviceAreaRestriction mo
 		allowedType = nasMessage.AllowedTypeNonAllowedArea
 	}
 
-	numOfElements := uint8(len(serviceAreaRestriction.Areas))
+	// TS 24.501 9.11.3.49: "number of elements" counts the TACs of the partial list, coded as count - 1
+	numOfTacs := 0
+	for _, area := range serviceAreaRestriction.Areas {
+		numOfTacs += len(area.Tacs)
+	}
+	numOfElements := uint8(numOfTacs-1) & 0x1f
 
 	firstByte := (allowedType<<7)&0x80 + numOfElements // only support TypeOfList '00' now
 	plmnIDNas := PlmnIDToNas(plmnID)
